@@ -270,6 +270,8 @@ inductive XOp
   | setGoal (g : Option Int)              -- the variable behind `count_complete_value` changes
   | stopMode
   | startMode (p : Nat)
+  | newGame                               -- the game is over and a new one begins: the players (and their variables) are gone
+  | ctlNone                               -- add / subtract / jump whose value template evaluated to None: ignored
   deriving DecidableEq, Repr
 
 def lookupSnap (p : Nat) : List (Nat × Snap) → Option Snap
@@ -317,6 +319,8 @@ def xstep (y : Sys) : XOp → Sys × List Obs
   | .setGoal g => ({ y with c := { y.c with goal := g } }, [])
   | .stopMode => (stopMode y, [])
   | .startMode p => startMode y p
+  | .newGame => if y.s.loaded then (y, []) else ({ y with saved := [], cur := 0 }, [])
+  | .ctlNone => (y, [])
 
 /-- run an op list, one trace entry per op -/
 def xrun : Sys → List XOp → Sys × List (XOp × List Obs)
@@ -472,6 +476,8 @@ def driverStep (y : Sys) (line : String) : Sys × String :=
     | some g => doX y (.setGoal g)
     | none => (y, "bad-op")
   | ["stopmode"] => doX y .stopMode
+  | ["newgame"] => if y.s.loaded then (y, "bad-op") else doX y .newGame
+  | ["ctlnone"] => if y.c.kind = .counter then doX y .ctlNone else (y, "bad-op")
   | ["startmode", p] =>
     match p.toNat? with
     | some p => doX y (.startMode p)
